@@ -64,6 +64,9 @@ HELD = {}           # token -> thread object waiting to be started
 HELD_EVT = {}       # token -> Event set once the thread object is parked
 OW_THREADS = []     # every oneway thread created during the case
 RELEASE_IN = {}     # token -> [tokens of held oneway calls whose threads this call's body starts (and awaits) before it looks around]
+GONE_IN = {}        # token -> Event set by the server while it is still decoding the request of a "gone" step
+GONE_GO = {}        # token -> Event the decoder waits for (set by the harness once the peer has reset the connection)
+GONE_CLASS = "verif.c12.PeerGoesAwayNow"
 BACKEND = {}        # uri of the second daemon (target of nested calls)
 _tokens = itertools.count(1)
 _serial = itertools.count(1)
@@ -167,21 +170,33 @@ def _start_held(tok, wait_body=False):
                 e2.wait(HANG)
 
 
+def _gone_converter(classname, d):
+    """custom class deserialiser (public API: register_dict_to_class): runs while the server decodes the request, tells the
+    harness so and waits until the harness has reset the connection"""
+    tok = d.get("token")
+    with LOCK:
+        ev_in, ev_go = GONE_IN.get(tok), GONE_GO.get(tok)
+    if ev_in is not None:
+        ev_in.set()
+        ev_go.wait(HANG)
+    return None
+
+
 def _classes():
     import Pyro5.api as api
 
     @api.expose
     class Target(object):
-        def ret(self, token, mode="none", gate=None):
+        def ret(self, token, mode="none", gate=None, extra=None):
             _body(token, mode, gate)
             return token
 
-        def rai(self, token, mode="none", gate=None):
+        def rai(self, token, mode="none", gate=None, extra=None):
             _body(token, mode, gate)
             raise ValueError("rai %d" % token)
 
         @api.oneway
-        def ow(self, token, mode="none", gate=None):
+        def ow(self, token, mode="none", gate=None, extra=None):
             _body(token, mode, gate)
 
         def nest(self, token, mode, inner_kind, inner_token, inner_mode):
@@ -254,6 +269,8 @@ def _setup(cfg):
     B.daemon.register(Target(), "t")
     BACKEND["uri"] = B.uri("t")
     Pyro5.server._OnewayCallThread.start = _held_start
+    from Pyro5.serializers import SerializerBase
+    SerializerBase.register_dict_to_class(GONE_CLASS, _gone_converter)
     _live.update(cfg=cfg, served=S, scopes=scopes, backend=B)
     return _live
 
@@ -518,6 +535,50 @@ class _Run(object):
             elif owmode == "definto":
                 self.pending_defer.append((None, tok))
                 self.pending_into.append(tok)
+        return tok
+
+    def step_gone(self, conn, st_, idx=0):
+        """a call whose client resets the connection while the server is still decoding the request: the method runs for a peer that
+        is gone.  Its context must still be that of ITS request; the peer address may be unknown (None), never somebody else's."""
+        from vlib import live
+        if conn.kind != "raw":
+            return self.step_call(conn, st_, idx=idx)
+        kind, mode = st_["kind"], st_["ann"]
+        tok = next(_tokens)
+        what = "%s(token %d, %s) by client %d whose connection is reset while the request is decoded [step %s]" % (kind, tok, mode, conn.idx, idx)
+        ser = SERS[st_.get("ser", 0) % 4]
+        with LOCK:
+            EVENTS[tok] = threading.Event()
+            GONE_IN[tok] = threading.Event()
+            GONE_GO[tok] = threading.Event()
+        self.hand_over(tok)
+        payload = live.call_payload(ser, "t", kind, (tok, mode, None, {"__class__": GONE_CLASS, "token": tok}), {})
+        sent, data = self.raw_request(conn, ser, payload, wire.F_ONEWAY if kind == "ow" else 0, tok, st_.get("reqann", 0), bool(st_.get("corr")), [tok], what)
+        self.expect(tok, conn, sent["ann"], sent["corr"], sent["seq"], sent["flags"], sent["ser"], "peer-gone", sent["req"], what)
+        self.exp[tok]["addr_unknown_ok"] = True
+        sconn = None
+        with self.S.daemon.v_lock:
+            for c_, data_ in self.S.daemon.v_validated:
+                if data_ == conn.hs:
+                    sconn = c_
+        try:
+            conn.peer.send(data)
+            if not GONE_IN[tok].wait(HANG):
+                raise HarnessError("C12: the server never started to decode %s" % what)
+            conn.peer.abort()
+            conn.open = False
+            if sconn is not None:
+                def peer_known():
+                    try:
+                        sconn.sock.getpeername()
+                        return False
+                    except OSError:
+                        return True
+                live.wait_for(peer_known, 2.0)      # the reset has reached the server's socket (stimulus only, no verdict)
+        finally:
+            GONE_GO[tok].set()
+        EVENTS[tok].wait(HANG)
+        self.pool_quiet(self.nopen())
         return tok
 
     def step_nested(self, conn, st_, idx=0):
@@ -788,6 +849,8 @@ class _Run(object):
                     raise HarnessError("C12: server side connection for handshake %r not found" % (e["hs"],))
                 if s["client"] is not want_conn:
                     bad = ("client", "connection %r" % (s["client"],), "the connection with handshake %s" % e["hs"])
+                elif s["addr"] is None and e.get("addr_unknown_ok"):
+                    pass        # the peer had reset the connection before the server asked for its address
                 elif s["addr"] is None or tuple(s["addr"]) != tuple(e["local"]):
                     bad = ("client_sock_addr", s["addr"], e["local"])
                 elif s["ann"] != e["ann"]:
@@ -826,6 +889,8 @@ def _reset_case_state(S):
         HELD.clear()
         HELD_EVT.clear()
         RELEASE_IN.clear()
+        GONE_IN.clear()
+        GONE_GO.clear()
         del OW_THREADS[:]
     with S.daemon.v_lock:
         del S.daemon.v_validated[:]
@@ -859,6 +924,8 @@ def _run_seq(r, case):
             r.step_ping(conn, st_, idx=idx)
         elif op == "bad":
             r.step_bad(conn, st_, idx=idx)
+        elif op == "gone":
+            r.step_gone(conn, st_, idx=idx)
         else:
             raise HarnessError("C12: unknown op %r" % (op,))
     r.release_all()
@@ -938,7 +1005,7 @@ def run_case(case, keep=False):
 # ------------------------------------------------------------------------------------------------
 # generation: one integer per step (mixed radix), decoded into a readable step dict
 # ------------------------------------------------------------------------------------------------
-OPS = ["call:ret", "call:rai", "call:ow", "batch", "ping", "reconnect", "call:rai", "call:ow", "bad", "disconnect", "ping", "call:ret", "nested", "batch"]
+OPS = ["call:ret", "call:rai", "call:ow", "batch", "ping", "reconnect", "call:rai", "call:ow", "bad", "disconnect", "ping", "call:ret", "nested", "batch", "gone:ret", "gone:ow"]
 ANN = ["none", "assign", "mutate", "assign", "mutate"]
 OWMODES = ["await", "free", "defer1", "deferend", "definto", "definto"]
 WHY = ["object", "method", "payload"]
@@ -957,7 +1024,10 @@ def decode_step(x):
     op, c, ann, reqann, corr, ser, owm, nmem, m0, m1, m2, bow, rawresp, why = f
     name = OPS[op]
     st_ = {"op": name.split(":")[0], "c": c, "reqann": reqann, "corr": corr, "ser": ser}
-    if name.startswith("call:"):
+    if name.startswith("gone:"):
+        st_["kind"] = name.split(":")[1]
+        st_["ann"] = ANN[ann]
+    elif name.startswith("call:"):
         st_["kind"] = name.split(":")[1]
         st_["ann"] = ANN[ann]
         if st_["kind"] == "ow":
@@ -1029,6 +1099,8 @@ def _annotating_trigger(st_):
     """does this step leave annotations behind that no reply of its own consumes (raise / oneway)?"""
     if st_["op"] == "call":
         return st_["ann"] != "none" and st_["kind"] in ("rai", "ow")
+    if st_["op"] == "gone":
+        return st_["ann"] != "none"       # whatever it sets can never be delivered to its own (vanished) client
     if st_["op"] == "batch":
         ms = st_["members"]
         ran = []
@@ -1089,6 +1161,8 @@ def _labels(case):
             l.append("batch")
         if s["op"] == "bad":
             l.append("malformed-call")
+        if s["op"] == "gone":
+            l.append("peer-reset-while-request-is-decoded")
         if s["op"] == "nested":
             l.append("nested-call" + ("-inner-annotates" if s["inner"]["ann"] != "none" and s["inner"]["kind"] == "ret" else ""))
     return sorted(set(l))
